@@ -94,7 +94,10 @@ Proof.
   try (match goal with |- context [Qzero ?s] => destruct (Qzero s) eqn:E; [discriminate|]; apply Qzero_false in E end);
   intros H; inversion H; subst; unfold wf, re_of, im_of; simpl; (split; [exact I|]); (split; [reflexivity|]);
   try (assert (~ (Qz z0 == 0)%Q) by (unfold Qz, Qeq; simpl; lia));
-  split; try (field; auto); try (unfold Qz in *; field; auto).
+  split.
+  all: try (field; auto).
+  all: try (unfold Qz in *; field; auto).
+  all: try (intro C; apply E; rewrite C; ring).
 Qed.
 
 (* division by zero is rejected *)
@@ -108,7 +111,7 @@ Proof.
   try (assert (E: Qzero (Qz z0 * Qz z0 + 0 * 0) = true) by (apply Qzero_spec; unfold Qz, Qeq in *; simpl in *; nia); rewrite E; reflexivity);
   try (assert (E: Qzero (q0 * q0 + 0 * 0) = true) by (apply Qzero_spec; rewrite Hr; ring); rewrite E; reflexivity);
   try (assert (E: Qzero (q * q + 0 * 0) = true) by (apply Qzero_spec; rewrite Hr; ring); rewrite E; reflexivity);
-  try (match goal with |- context [Qzero ?s] => assert (E: Qzero s = true) by (apply Qzero_spec; rewrite Hr, Hi; ring); rewrite E; reflexivity end).
+  try (match goal with |- context [Qzero ?s] => assert (E: Qzero s = true) by (apply Qzero_spec; first [rewrite Hr, Hi; ring | rewrite Hr; ring]); rewrite E; reflexivity end).
 Qed.
 
 (* ---------- comparisons ---------- *)
@@ -133,13 +136,7 @@ Proof.
   intros Hx Hy Nx Ny.
   wf_cases x; wf_cases y; unfold binary_untyped, class_of, compare_c, re_of, im_of; simpl;
   rewrite ?andb_true_r; try reflexivity;
-  try (f_equal; f_equal; f_equal; unfold Qeq_bool, Qz; simpl; rewrite ?Z.mul_1_r;
-       try (destruct (z ?= z0) eqn:E; [apply Z.compare_eq in E; subst; rewrite Z.eqb_refl; reflexivity
-                                       | symmetry; apply Z.eqb_neq; intro; subst; rewrite Z.compare_refl in E; discriminate
-                                       | symmetry; apply Z.eqb_neq; intro; subst; rewrite Z.compare_refl in E; discriminate]);
-       try (unfold Qcompare; simpl;
-            match goal with |- cmp_of (?a ?= ?b) CEq = Zeq_bool ?a ?b =>
-              unfold Zeq_bool; destruct (a ?= b); reflexivity end)).
+  unfold Qeq_bool, Qz; simpl; rewrite !Z.mul_1_r; unfold Zeq_bool; reflexivity.
 Qed.
 
 (* operands of different classes (number / string / bool) are rejected (fix C04-3) *)
@@ -150,38 +147,54 @@ Proof.
 Qed.
 
 (* ---------- shifts ---------- *)
-Lemma shift_exact (left : bool) (x y : lit) a n : wf x -> is_intkind (lkind x) = true -> lval x = CInt a ->
-  to_int (lval y) = Some n ->
-  (0 <= n < 2 ^ 64 ->
-     binary_untyped (if left then OShl else OShr) x y =
-       (if class_eqb (class_of x) (class_of y)
-        then Some (mkLit (lkind x) (CInt (if left then a * 2 ^ n else a / 2 ^ n))) else None)) /\
-  (~ (0 <= n < 2 ^ 64) -> binary_untyped (if left then OShl else OShr) x y = None).
+Lemma uint64_exact_spec n : uint64_exact n = true <-> 0 <= n < 2 ^ 64.
+Proof. unfold uint64_exact. rewrite in_rangeb_spec. unfold in_range, imin, imax, modulus, signed, width. simpl. lia. Qed.
+
+Lemma shift_guard n : negb (uint64_exact n) || (shift_bound <? n) = false <-> 0 <= n <= shift_bound.
 Proof.
-  intros Hx Hk Ha Hn.
-  assert (U: uint64_exact n = true <-> 0 <= n < 2 ^ 64).
-  { unfold uint64_exact. rewrite in_rangeb_spec. unfold in_range, imin, imax, modulus, signed, width. simpl. lia. }
+  rewrite orb_false_iff, negb_false_iff, uint64_exact_spec, Z.ltb_ge. unfold shift_bound. lia.
+Qed.
+
+(* x << n = x * 2^n and x >> n = floor (x / 2^n) for every integer x and every count 0 <= n <= 1074;
+   any other count (negative, non-integral -- then to_int fails -- or larger) is rejected *)
+Lemma shift_exact (left : bool) (x y : lit) a n : is_intkind (lkind x) = true -> lval x = CInt a ->
+  numeric y -> to_int (lval y) = Some n ->
+  (0 <= n <= shift_bound ->
+     binary_untyped (if left then OShl else OShr) x y =
+       Some (mkLit (lkind x) (CInt (if left then a * 2 ^ n else a / 2 ^ n)))) /\
+  (~ (0 <= n <= shift_bound) -> binary_untyped (if left then OShl else OShr) x y = None).
+Proof.
+  intros Hk Ha Ny Hn. unfold numeric in Ny.
+  destruct x as [k v]; simpl in *; subst v.
+  assert (Cx: class_of {| lkind := k; lval := CInt a |} = ClNum) by (destruct k; try discriminate; reflexivity).
   split; intros Hr.
-  - apply U in Hr.
-    wf_cases x; inversion Ha; subst; destruct left; unfold binary_untyped, shift_untyped; simpl;
-    destruct (class_of y); simpl; try reflexivity; rewrite Hn, Hr; simpl;
-    rewrite ?Z.shiftl_mul_pow2, ?Z.shiftr_div_pow2 by (apply U in Hr; lia); reflexivity.
-  - assert (Hf: uint64_exact n = false) by (destruct (uint64_exact n); [exfalso; apply Hr, U; reflexivity|reflexivity]).
-    wf_cases x; inversion Ha; subst; destruct left; unfold binary_untyped, shift_untyped; simpl;
-    destruct (class_of y); simpl; try reflexivity; rewrite Hn, Hf; reflexivity.
+  - apply shift_guard in Hr.
+    destruct left; unfold binary_untyped; rewrite Cx, Ny; simpl; unfold shift_untyped; simpl; rewrite Hn, Hr;
+    apply shift_guard in Hr; destruct k; try discriminate; simpl;
+    rewrite ?Z.shiftl_mul_pow2, ?Z.shiftr_div_pow2 by lia; reflexivity.
+  - assert (Hf: negb (uint64_exact n) || (shift_bound <? n) = true).
+    { destruct (negb (uint64_exact n) || (shift_bound <? n)) eqn:E; [reflexivity|]. apply shift_guard in E. contradiction. }
+    destruct left; unfold binary_untyped; rewrite Cx, Ny; simpl; unfold shift_untyped; simpl; rewrite Hn, Hf; reflexivity.
+Qed.
+
+Lemma shift_count_not_integer (left : bool) (x y : lit) : to_int (lval y) = None ->
+  binary_untyped (if left then OShl else OShr) x y = None.
+Proof.
+  intros Hn. destruct left; unfold binary_untyped; destruct (negb _); try reflexivity; unfold shift_untyped; rewrite Hn; reflexivity.
 Qed.
 
 (* an integer-valued float/complex left operand is first converted exactly to an integer (fix C04-4); result kind int *)
 Lemma shift_float_operand (left : bool) (x y : lit) a n : wf x -> numeric x -> numeric y -> is_intkind (lkind x) = false ->
-  to_int (lval x) = Some a -> to_int (lval y) = Some n -> 0 <= n < 2 ^ 64 ->
+  to_int (lval x) = Some a -> to_int (lval y) = Some n -> 0 <= n <= shift_bound ->
   binary_untyped (if left then OShl else OShr) x y = Some (mkLit KInt (CInt (if left then a * 2 ^ n else a / 2 ^ n))).
 Proof.
   intros Hx Nx Ny Hk Ha Hn Hr.
-  assert (U: uint64_exact n = true).
-  { unfold uint64_exact. rewrite in_rangeb_spec. unfold in_range, imin, imax, modulus, signed, width. simpl. lia. }
-  unfold numeric in Ny.
-  wf_cases x; destruct left; unfold binary_untyped, shift_untyped; simpl; rewrite Ny; simpl; rewrite Hn, U; simpl;
-  simpl in Ha; rewrite Ha; simpl; rewrite ?Z.shiftl_mul_pow2, ?Z.shiftr_div_pow2 by lia; reflexivity.
+  pose proof Hr as Hg. apply shift_guard in Hg.
+  unfold numeric in *.
+  assert (Cx: class_of x = ClNum) by assumption.
+  destruct left; unfold binary_untyped; rewrite Cx, Ny; simpl; unfold shift_untyped; rewrite Hn, Hg; simpl;
+  destruct x as [k v]; destruct k, v; unfold wf in Hx; simpl in *; try contradiction; try discriminate;
+  rewrite Ha; simpl; rewrite ?Z.shiftl_mul_pow2, ?Z.shiftr_div_pow2 by lia; reflexivity.
 Qed.
 
 (* ---------- well-formedness is preserved: exactness composes over whole expression trees ---------- *)
@@ -196,11 +209,11 @@ Proof.
   intros Hx Hy.
   wf_cases x; wf_cases y; destruct op; unfold binary_untyped, class_of, shift_untyped, binop_c, compare_c; simpl;
   intros H;
-  repeat match type of H with
+  repeat (simpl in H; match type of H with
          | context [if ?c then _ else _] => destruct c
          | context [match ?c with _ => _ end] => destruct c
-         end;
-  try discriminate; inversion H; try exact I.
+         end);
+  simpl in H; try discriminate; inversion H; try exact I.
 Qed.
 
 Fixpoint lits_wf (e : expr) : Prop :=
